@@ -48,7 +48,9 @@ ShapeX == Mk(TypeX, 2, 3)
 
 Sym(c) == CASE c = "a" -> ShapeA [] c = "b" -> ShapeB [] c = "x" -> ShapeX
 
-Init == /\ \E w \in BOOLEAN : WInit(w)
+\* the cursors of the (empty) destinations when the writer receives them
+StartPositions == {0, 37}
+Init == /\ \E w \in BOOLEAN, p \in StartPositions : WInitAt(w, p, IF w THEN p ELSE 0)
         /\ hist = << >>
 
 DoWrite(c) ==
